@@ -405,6 +405,9 @@ fn invalid_arguments(cx: &CaseCtx, rep: &mut Report, rng: &mut Rng) {
 		("filter_zoom max=1000", "does not fit u8"),
 		("filter_zoom min=[1,2]", "list for a scalar"),
 		("filter_zoom min=\"\"", "empty"),
+		("filter_zoom min=[]", "empty list for a scalar"),
+		("filter_zoom max=[]", "empty list for a scalar"),
+		("filter_bbox bbox=[]", "wrong arity"),
 		("filter_bbox", "bbox missing"),
 		("filter_bbox bbox=[1,2,3]", "wrong arity"),
 		("filter_bbox bbox=[1,2,3,4,5]", "wrong arity"),
